@@ -101,6 +101,7 @@ def dispatch (toks : List String) : String :=
     | "sm3hist" :: rest => Driver.sm3hist rest
     | "sm4mode" :: rest => Driver.sm4mode rest
     | "sm4mseq" :: rest => Driver.sm4mseq rest
+    | "sm4ivseq" :: rest => Driver.sm4ivseq rest
     | "padrd" :: rest => Driver.padrd rest
     | "padwr" :: rest => Driver.padwr rest
     | "p7stream" :: rest => Driver.p7streamModel rest
